@@ -108,6 +108,10 @@ type RestartCase struct {
 	// whatever it reports, only a call that reported success may have taken effect - now or after a
 	// restart). The server is restarted afterwards, because the audit writer does not recover.
 	FailAudit []int `json:"fail_audit,omitempty"`
+	// the configured database path is a symbolic link to the real file next to it: "rel" = the link's
+	// target is a relative name (ln -s database.real db), "abs" = an absolute one, "" = a plain file.
+	// The server's working directory is somewhere else entirely.
+	Symlink string `json:"symlink,omitempty"`
 }
 
 // downKEK is a key service that cannot be reached.
@@ -227,6 +231,22 @@ func runC03(t *testing.T, rc RestartCase) (*h.Violation, h.Info) {
 		info.Class("real-kek")
 	}
 	sink := &flakyAudit{}
+	if rc.Symlink != "" {
+		// the real file is created first (by an earlier run of the server), then linked to
+		real := filepath.Join(dir, "c03-database.real")
+		if _, err := dbx.OpenDiscard(real, key); err != nil {
+			return h.V("harness", "create: %v", err), info
+		}
+		target := real
+		if rc.Symlink == "rel" {
+			target = "c03-database.real"
+			defer os.Remove("c03-database.real") // (what a server that resolved the name against its working directory leaves behind)
+		}
+		if err := os.Symlink(target, path); err != nil {
+			return h.V("harness", "symlink: %v", err), info
+		}
+		info.Class("database-path-is-a-symbolic-link-" + rc.Symlink)
+	}
 	d, err := db.Open(path, key, audit.New(sink))
 	if err != nil {
 		return h.V("harness", "open: %v", err), info
@@ -358,6 +378,7 @@ var c03 = &h.Campaign[RestartCase]{
 	Quick: 4000, Thorough: 400000,
 	Gen: func(rt *rapid.T) RestartCase {
 		c := RestartCase{Ops: dbx.GenHistory(rt, 1, 25), RealKEK: rapid.IntRange(0, 3).Draw(rt, "realkek") == 0}
+		c.Symlink = rapid.SampledFrom([]string{"", "", "", "", "rel", "abs"}).Draw(rt, "symlink")
 		if rapid.IntRange(0, 2).Draw(rt, "withfail") == 0 {
 			c.FailSave = rapid.SliceOfN(rapid.IntRange(0, 24), 1, 3).Draw(rt, "failsave")
 			c.Retry = rapid.Bool().Draw(rt, "retry")
